@@ -74,10 +74,11 @@ def validated_python_name(name, value):
 def generated_tokens(text):
     try:
         toky = list(tokenize.generate_tokens(_compat.token_io_readline(text)))
-    except (SyntaxError, UnicodeError) as error:
+    except (SyntaxError, UnicodeError, SystemError) as error:
         # Inconsistent indentation in multi line text results in an IndentationError instead of a TokenError.
         # With Python 3.12, a carriage return followed by a non ASCII character results in a UnicodeDecodeError
-        # and a lone surrogate (for example "\ud800") in a UnicodeEncodeError.
+        # and a lone surrogate (for example "\ud800") in a UnicodeEncodeError. An indented line followed by a
+        # line with a NUL character even results in a SystemError.
         raise tokenize.TokenError(str(error))
     if len(toky) >= 2 and is_newline_token(toky[-2]) and is_eof_token(toky[-1]):
         # HACK: Remove newline that generated_tokens() adds starting with Python 3.x but not before.
